@@ -5,6 +5,7 @@ from torch import Tensor
 from torchjd.aggregation import Aggregator
 
 from ._transform import Accumulate, Aggregate, Diagonalize, EmptyTensorDict, Init, Jac
+from ._transform.accumulate import _check_expects_grad
 from ._utils import _as_tensor_list, _check_optional_positive_chunk_size, _get_leaf_tensors
 
 
@@ -77,6 +78,9 @@ def backward(
         inputs = _get_leaf_tensors(tensors=tensors, excluded=set())
     else:
         inputs = set(inputs)
+
+    for input in inputs:
+        _check_expects_grad(input)
 
     # Transform that creates gradient outputs containing only ones.
     init = Init(tensors)
